@@ -10,6 +10,9 @@ import HappyProofs.C02.Late
 import HappyProofs.C02.JudgeWait
 import HappyProofs.C02.JudgeHooks
 import HappyProofs.C02.JudgeTrace
+import HappyProofs.C02.JudgeFuture
+import HappyProofs.C02.JudgeFutureV
+import HappyProofs.C02.JudgeFull
 /-!
 # C02 — property theorems (process layer)
 
@@ -557,5 +560,47 @@ example :
     delayMonitor [Line.resume 11 0 "none" 4] = some "process/resumed-without-pending-delay" ∧
     waitMonitor [Line.wait 1 0 false, Line.resume 5 1 "n1" 0, Line.resume 6 1 "n1" 0] = some "future/resumed-without-wait" := by
   decide
+
+
+/-! ## the settle fold of the judge on the model's trace (plain futures) -/
+
+-- non-vacuity of `future_before_resolved_silent_on_program_plain`: `demoProg` is plain, its view has the `w` line
+-- of the generator (t = 1), the `r` line of the handler that resolves the future (t = 2) and the untagged `R`
+-- line of the resumption (t = 2)
+example : demoProg.PlainFutures := by decide
+example : (futView none 10 (demoProg.initState false)).map futKey = [(2, 0, 0), (1, 0, 0), (3, 2, 0)] := by decide
+-- the clause is not vacuous: without the `r` line the same fold raises it
+example :
+    ((enum [HappyModel.C02.Spec.Line.wait 0 0 false, HappyModel.C02.Spec.Line.resume 2 0 "n7" 0]).foldl
+      (fun st p => HappyModel.C02.Spec.stepLine st p.1 p.2) {}).err = some "future/resumed-before-resolved" := by
+  decide
+
+
+-- non-vacuity of `future_clauses_silent_on_program_plain`: `demoProg` qualifies; its future-layer trace is
+-- S(1) w(0 on 0) S(2) r(0) R(2, process 0) K(2: the completion hook's event)
+example : demoProg.PlainFuturesV := by decide
+example : (FV.futTrace none 10 (demoProg.initState false)).map ftKey =
+    [(4, 1, 0), (2, 0, 0), (4, 2, 0), (1, 0, 0), (3, 2, 0), (5, 2, 0)] := by decide
+-- the clauses are not vacuous: a wrong value, a wrong instant on the same lines make the fold raise them
+example :
+    ((enum [HappyModel.C02.Spec.Line.start 1 1, .wait 0 0 false, .start 2 2, .resolve 0 (.n 7), .resume 2 0 "n8" 0]).foldl
+      (fun st p => HappyModel.C02.Spec.stepLine st p.1 p.2) {}).err = some "future/resumed-with-wrong-value" := by
+  decide
+example :
+    ((enum [HappyModel.C02.Spec.Line.start 1 1, .wait 0 0 false, .start 2 2, .resolve 0 (.n 7), .resume 3 0 "n7" 0]).foldl
+      (fun st p => HappyModel.C02.Spec.stepLine st p.1 p.2) {}).err = some "future/resumed-at-wrong-instant" := by
+  decide
+example :
+    ((enum [HappyModel.C02.Spec.Line.start 1 1, .wait 0 0 false, .start 2 2, .resolve 0 (.n 7), .resume 2 0 "n7" 0]).foldl
+      (fun st p => HappyModel.C02.Spec.stepLine st p.1 p.2) {}).err = none := by
+  decide
+
+
+-- non-vacuity of `plain_program_full_trace_satisfies_c02_spec`: the full trace of `demoProg` (15 lines: the pre-run
+-- `h` line, S w | S r F | R F H c | K and the closing neutral lines) carries the `w`, `r` and untagged `R` lines
+-- of the future layer in the order they are written
+example : (c02FullTraceOf none 10 (demoProg.initState false)).length = 15 ∧
+    ((c02FullTraceOf none 10 (demoProg.initState false)).map ftKey).filter (fun x => x.1 != 0) =
+      [(4, 1, 0), (2, 0, 0), (4, 2, 0), (1, 0, 0), (3, 2, 0), (5, 2, 0)] := by decide
 
 end HappyModel.C01
